@@ -99,7 +99,7 @@ RResult(k, s, p, nm) ==
          LET pd == RPdf(s, pl[2]) IN IF ~pd[3] THEN Fail
          ELSE LET a == RNums(s, pd[2], pd[1].bins * pd[1].dims) IN IF ~a[3] THEN Fail
               ELSE <<[head |-> pl[1].head, dists |-> pl[1].dists, pdf |-> pd[1], adj |-> a[1]], a[2], TRUE>>
-    ELSE LET n == RNum(s, pl[2]) IN IF ~n[3] \/ n[1] < 0 \/ n[1] > 6 THEN Fail
+    ELSE LET n == RNum(s, pl[2]) IN IF ~n[3] \/ n[1] < 0 \/ n[1] > 40 THEN Fail
          ELSE LET a == RNums(s, n[2], 2 * n[1]) IN IF ~a[3] THEN Fail
               ELSE <<[head |-> pl[1].head, dists |-> pl[1].dists,
                       pairs |-> [i \in 1 .. n[1] |-> <<a[1][2 * i - 1], a[1][2 * i]>>]], a[2], TRUE>>
@@ -126,7 +126,7 @@ RChk(k, s, gw, nm) ==
                   IF n[1] > 0 THEN <<(IF k = "vegas" THEN rs[1][1].pdf
                                       ELSE IF k = "mc" THEN [i \in 1 .. Len(rs[1][1].pairs) |-> rs[1][1].pairs[i][2]] ELSE <<>>), par[2], TRUE>>
                   ELSE IF k = "vegas" THEN RPdf(s, par[2])
-                  ELSE IF k = "mc" THEN LET c == RNum(s, par[2]) IN IF ~c[3] \/ c[1] < 0 \/ c[1] > 6 THEN Fail ELSE RNums(s, c[2], c[1])
+                  ELSE IF k = "mc" THEN LET c == RNum(s, par[2]) IN IF ~c[3] \/ c[1] < 0 \/ c[1] > 40 THEN Fail ELSE RNums(s, c[2], c[1])
                   ELSE <<<<>>, par[2], TRUE>>
             IN IF ~first[3] THEN Fail
        ELSE LET g == RGens(s, first[2], n[1] + 1, gw) IN IF ~g[3] THEN Fail
